@@ -75,8 +75,10 @@ CHECKS["C05"] = dict(
           "choice structure of R in lib/Rstruct.v, Epsilon.epsilon_statement (all declared by the standard library); pyscalar "
           "translator; the kexpr/keval recursion scheme is hand-written over generated node arithmetic (pattern-checked + correspondence). "
           "Gram matrices of the Linear and ExpQuad kernels are PROVED positive semi-definite (exponential series + Schur product; "
-          "C05_expquad_gram_psd, C05_linear_gram_psd) and so is every expression tree over them (C05_keval_psd_gaussian_linear). "
-          "PARTIAL: for Matern32, Matern52, Exponential and RatQuad positive semi-definiteness (Bochner / Schoenberg scale mixtures) remains the "
+          "C05_expquad_gram_psd, C05_linear_gram_psd), so are those of RatQuad with alpha = 1 (its default) and with every positive integer alpha "
+          "(C05_ratquad_default_gram_psd, C05_ratquad_integer_alpha_gram_psd: 1/u as a double limit of geometric sums of ExpQuad entries), and so is every "
+          "expression tree over them (C05_keval_psd_gaussian_linear, C05_keval_psd_elementary). "
+          "PARTIAL: for Matern32, Matern52, Exponential and RatQuad with non-integer alpha positive semi-definiteness (Bochner / Schoenberg scale mixtures) remains the "
           "hypothesis of C05_keval_psd_bochner_only_partial, tested numerically as support only; Pow nodes are outside psd_shape; RatQuad "
           "docstring exponent typo noted."),
     technique="Coq real-analysis proof over translator-generated definitions + Interval-tactic enclosure at every sampled input",
